@@ -49,8 +49,23 @@ VARIANTS = [
     ("report -f ..", ["report", "-f", "total,self,call,total-avg,self-max"]),
     ("graph -f ..", ["graph", "-f", "total,self,addr"]),
 ]
+# filter / trigger options (module suffixes @PLT @kernel @<exe>, caller filter, time and depth filter, pattern type):
+# they make the readers consult maps, symbols and specs of the damaged directory at set-up time
+FILTERS = [
+    ("replay -F @PLT", ["replay", "-F", "f1@PLT"]),
+    ("replay -F -N -D", ["replay", "-F", "main", "-N", "f2", "-D", "3"]),
+    ("report -F @prog -N @kernel", ["report", "-F", "f1@prog", "-N", "f2@kernel"]),
+    ("graph -T depth -C", ["graph", "-T", "f1@depth=1", "-C", "f1"]),
+    ("replay -t -T time", ["replay", "-t", "100ns", "-T", "f1@time=1us"]),
+    ("dump --match glob", ["dump", "--match", "glob", "-F", "f*", "-N", "f2@PLT"]),
+    ("replay -T @PLT trace_off", ["replay", "-T", "f1@PLT,trace_off", "-T", "main@trace_on"]),
+    ("report --match regex -C @PLT", ["report", "--match", "regex", "-C", "f.@PLT"]),
+    ("replay -A -R", ["replay", "-A", "f2@arg1", "-R", "f2@retval"]),
+]
+# the second directory of `report --diff` is the damaged one (the first is intact)
+DIFF_DAMAGED = ("report --diff <damaged>", ["report", "--diff", "b"])
 CMDS = [c for c, _ in PLAIN]
-ARGV = dict(PLAIN + VARIANTS)
+ARGV = dict(PLAIN + VARIANTS + FILTERS + [DIFF_DAMAGED])
 
 # Eight defect classes found by this check were repaired in /repo (known-findings.txt `fixed: property=C12 ...`):
 # partial-args, partial-header-time, payload-cut-time, info-empty-value, task-exename-cut, sym-empty-header-value,
@@ -206,8 +221,19 @@ def desc_of(case, tid=100):
             "tasks": tasks, "exename": "/fake/prog", "cmdline": "uftrace record prog"}
 
 
+INFO_TAIL = (b"record_date:Thu Oct  1 00:00:00 2026\nelapsed_time:0.001000000 sec\npattern_type:regex\n"
+             b"uftrace_version:v0.15 ( x86_64 dwarf )\n")
+
+
 def write_dir(case, d):
     datadir.write(desc_of(case), d, argspec={"argspec": case["argspec"], "retspec": case["retspec"]})
+    # the lines a real recording writes after the argument specs (their consumers trust the info mask of the header):
+    # RECORD_DATE (record_date + elapsed_time), PATTERN_TYPE, VERSION
+    p = os.path.join(d, "info")
+    b = bytearray(open(p, "rb").read())
+    mask = struct.unpack_from("<Q", b, 24)[0] | datadir.INFO_RECORD_DATE | datadir.INFO_PATTERN_TYPE | datadir.INFO_VERSION
+    struct.pack_into("<Q", b, 24, mask)
+    open(p, "wb").write(bytes(b) + INFO_TAIL)
     return open(os.path.join(d, "100.dat"), "rb").read()
 
 
@@ -533,14 +559,17 @@ def benign_ubsan(err):
     return all("null pointer passed as argument" in l for l in lines)
 
 
-def run_cmds(uft, root, files, cmds=None):
+def run_cmds(uft, root, files, cmds=None, second=None):
     """files: {name: bytes}; runs the commands (labels of ARGV; default: the five plain ones) on a fresh directory `d`
     under root; returns {label: (rc, out, err)}"""
     d = os.path.join(root, "d")
-    os.makedirs(d)
-    for name, b in files.items():
-        with open(os.path.join(d, name), "wb") as f:
-            f.write(b)
+    for dd, fs in ((d, files), (os.path.join(root, "b"), second)):
+        if fs is None:
+            continue
+        os.makedirs(dd, exist_ok=True)
+        for name, b in fs.items():
+            with open(os.path.join(dd, name), "wb") as f:
+                f.write(b)
     res = {}
 
     def limit():        # a command that prints for ever is stopped by SIGXFSZ instead of filling memory or the disk
@@ -572,7 +601,7 @@ def e2e(ctx, objdir):
     rng = ctx.rng
     ndirs = ctx.n(1, 2)
     nvar = ctx.n(10, len(VARIANTS))
-    variants = [c for c, _ in VARIANTS[:nvar]]
+    variants = [c for c, _ in VARIANTS[:nvar]] + [c for c, _ in FILTERS[:ctx.n(6, len(FILTERS))]]
     allcmds = CMDS + variants
     for di in range(ndirs):
         case = gen_case(rng, ctx.n(10, 16), small=True, nested=True, minstr=3)
@@ -671,8 +700,14 @@ def e2e(ctx, objdir):
         def run_job(job):
             if len(hung) >= 3:          # a hanging command is reported by the first cuts; do not wait for each of the rest
                 return job, None
-            cmds = allcmds if with_variants(job) else CMDS
-            r_ = run_cmds(uft, os.path.join(root, "j-%s-%s-%d" % (job[0].replace("/", "_"), job[1], job[2])), content_of(job), cmds)
+            wv = with_variants(job)
+            cmds = allcmds if wv else CMDS
+            if job[0] == "info" and not wv:
+                cmds = CMDS + ["dump --flame-graph"]      # reads info.elapsed_time: on every cut of info
+            jd = os.path.join(root, "j-%s-%s-%d" % (job[0].replace("/", "_"), job[1], job[2]))
+            r_ = run_cmds(uft, jd, content_of(job), cmds)
+            if wv:
+                r_.update(run_cmds(uft, jd + "-diff", files, [DIFF_DAMAGED[0]], second=content_of(job)))
             if any(v[0] in (124, 137, 153) or v[0] < 0 for v in r_.values()):
                 hung.append(job)
             return job, r_
@@ -739,7 +774,7 @@ def e2e(ctx, objdir):
                     tags.append("e2e:line-boundary-1")
                 else:
                     tags.append("e2e:mid-line")
-            if len(res) > len(CMDS):
+            if len(res) > len(CMDS) + 1:
                 tags.append("e2e:with-option-variants")
             ctx.case(key=("e2e", di, fname, mode, n), nontrivial=(mode != "cut" or n > 0), tags=tags, size=max(n, 0))
             for c in res:
@@ -760,7 +795,7 @@ def e2e(ctx, objdir):
                     viol(ctx, "e2e-sanitizer:%s:%s" % (kind, c), "uftrace %s: crash / out-of-bounds / undefined access (sanitizer report) on a "
                          "directory whose %s is %s" % (c, fname, how), rep, True)
                     continue
-                if mode != "cut":
+                if mode != "cut" or c == DIFF_DAMAGED[0]:
                     continue
                 if fname.endswith(".dat") and n > 0 and whole(fname, n) != n:
                     wl = whole(fname, n)
